@@ -220,7 +220,7 @@ pub fn run(ctx: &Ctx) {
         "cases = generated streams (all entry points, optional extra metadata blocks); oracle: parser::stream consumes all input, the tree verifies, re-serialises to identical bytes and decodes to the original samples; every frame and every subframe serialised alone round-trips through parser::frame / parser::subframe (consumed bits = count_bits); orders, precision, shift, coefficients, partition orders and Rice parameters agree with the harness' reference reader; \
          non-trivial = (predictive subframe and bps != 16) or a frame with a non-trivial header code (explicit block size / sample rate, multi-byte frame number, stereo assignment)",
     );
-    let per = ctx.tier.scale(300, 15);
+    let per = ctx.tier.scale(1200, 10);
     let co = CfgOpts { allow_multithread: true, ..Default::default() };
     ctx.search("stream", 16, per, &|| case_strategy(co, InOpts::default()), check);
     // many small frames: multi-byte frame numbers, explicit block sizes and rates
